@@ -53,6 +53,91 @@ def gen_scripts(ctx, scale):
     return cases
 
 
+CORNER2 = [
+    'n n n b0,0 b1,0 g0 g1 g1 n',            # genuine CAS failure and retry between two disposers
+    'n n b0,0 nk0 n',                        # racy miss: the push lands between the check and the allocation
+    'n n n d0 b0,0 nx0 g0 n',                # drain in the middle of a push: the CAS fails because the owner took the list
+    'n n b0,0 f0 f0 g0 cx1 n b1,0 d0 cx1',   # spurious failures; push inside Clear's drain
+    'n n n b0,0 b1,0 b2,0 g2 g1 g0 g1 g0 g0 n n n',
+    'n n n n d0 d0 b0,0 b1,0 nx0 g1 g0 nk1 g1 n',
+    'n a0 n b0,0 t0 b1,0 g1 g0 g0 c n',
+    'n b0,0 c g0 n c',
+]
+
+
+def gen_scripts2(ctx, scale):
+    r = ctx.rng
+    cases = ['seq2 ' + c for c in CORNER2]
+    for i in range(150 * scale):
+        n = r.range(6, 40)
+        ops = ['n'] * r.range(1, 4)
+        for j in range(n):
+            x = r.below(100); d = r.below(3)
+            ops.append('n' if x < 14 else 'nk%d' % d if x < 22 else 'nx%d' % d if x < 30 else 'b%d,%d' % (d, r.below(4)) if x < 48
+                       else 'g%d' % d if x < 68 else 'f%d' % d if x < 73 else 'd%d' % r.below(4) if x < 81 else 'a%d' % r.below(3) if x < 86
+                       else 't%d' % r.below(3) if x < 90 else 'r%d' % r.below(3) if x < 93 else 'cx%d' % d if x < 97 else 'c')
+        cases.append('seq2 ' + ' '.join(ops))
+    return cases
+
+
+TOK2 = re.compile(r'^([A-Z\-])([\d,:a-z]*)\|fl=([\w,]*)\|pc=(\d+)$')
+
+
+def oracle_seq2(case, out):
+    """property predicate on the barrier-harness observations (independent of the Coq model)"""
+    toks = out.split()
+    if not toks or toks[-1] != 'end|pc=0':
+        return 'buffers outstanding after the final Clear / truncated output: %r' % out[-80:], False
+    det, tab, hand, chain, prev_fl = set(), set(), {}, [], []
+    fails = misses = mid = 0
+    last_k = None
+    for t in toks[:-1]:
+        m = TOK2.match(t)
+        if not m: return 'unparsable event %r' % t, False
+        ev, arg, fl, pc = m.group(1), m.group(2), m.group(3), int(m.group(4))
+        if 'CYCLE' in fl: return 'free list is cyclic after %s' % t, False
+        fls = [int(x) for x in fl.split(',')] if fl else []
+        if len(set(fls)) != len(fls): return 'free list contains a buffer twice after %s' % t, False
+        if ev == 'N':
+            r = int(arg)
+            if r in det or r in tab or r in hand.values() or r in fls: return 'NewRow returned buffer %d which is alive / in a destructor / listed' % r, False
+            det.add(r); chain = []
+            if last_k == '0' and prev_fl: misses += 1
+        elif ev == 'A': det.discard(int(arg)); tab.add(int(arg))
+        elif ev == 'T': tab.discard(int(arg)); det.add(int(arg))
+        elif ev == 'R': tab.discard(int(arg))
+        elif ev == 'D':
+            det.discard(int(arg))
+            if not fls or fls[0] != int(arg): return 'destroyed row not at the head of the free list after %s' % t, False
+        elif ev == 'B':
+            th, r = arg.split(':'); det.discard(int(r)); hand[th] = int(r)
+        elif ev == 'G':
+            th, res = arg.split(':')
+            if res == 'ok':
+                r = hand.pop(th)
+                if not fls or fls[0] != r: return 'published row not at the head of the free list after %s' % t, False
+                if fls[1:] != prev_fl: return 'a successful CAS did not link onto the current head: %s -> %s' % (prev_fl, fls), False
+            else:
+                fails += 1
+                if fls != prev_fl: return 'a failed CAS changed the shared list', False
+        elif ev == 'F':
+            if fls != prev_fl: return 'a spuriously failed CAS changed the shared list', False
+        elif ev == 'K':
+            last_k = arg
+            if (arg == '1') != bool(prev_fl): return 'the check answered %s with free list %s' % (arg, prev_fl), False
+        elif ev == 'X':
+            chain = prev_fl
+            if fls: return 'the exchange did not take the whole list', False
+            if hand: mid += 1
+        elif ev == 'C':
+            tab.clear(); chain = []
+        if pc != len(det) + len(tab) + len(hand) + len(fls) + len(chain):
+            return 'pool holds %d buffers, expected %d alive + %d in destructors + %d listed + %d being drained after %s' % (
+                pc, len(det) + len(tab), len(hand), len(fls), len(chain), t), False
+        prev_fl = fls
+    return None, (fails > 0 or misses > 0) and mid > 0
+
+
 def gen_stress(ctx, scale):
     r = ctx.rng
     cases = []
@@ -184,7 +269,14 @@ def replay(ctx, rp):
         exe = ctx.cxx('harness.cpp', 'harness', flags, sanitize=False)
     if exe is None:
         print('harness does not build'); return 2
-    if case.startswith('stress'):
+    if case.startswith('seq2'):
+        exe2 = ctx.cxx('harness2.cpp', 'harness2', flags, sanitize=False)
+        rc, o, e, w = vlib.sh([exe2], inp=case + '\n', timeout=120) if exe2 else (2, '', 'harness2 does not build', 0)
+        line = (o.strip().splitlines() or [''])[-1]
+        why = ('harness exit %d: %s' % (rc, e[-300:])) if rc != 0 else oracle_seq2(case, line)[0]
+        bad = [(case, line, why)] if why else []
+        print('case:', case, '\nimplementation:', line[:2000], '\n', why or 'property holds on this case')
+    elif case.startswith('stress'):
         bad = run_stress(ctx, exe, [case] * 3, rp.get('sanitizer') or 'plain', {'TSAN_OPTIONS': 'halt_on_error=1 exitcode=66'})
         print('case:', case, '\n', bad[0][2] if bad else 'no violation in 3 runs')
     else:
@@ -272,6 +364,45 @@ def run(ctx):
                 ctx.violation('machine and implementation disagree on the free list / reclaim behaviour', {'case': c, 'impl': il[:1500], 'model': ml[:1500],
                               'cmd': 'echo "%s" | build/C19/harness' % c}, found_input=True)
 
+    # ---- tie (b2): deterministic multi-thread schedules (barrier harness: the list head type is wrapped with test hooks in
+    #      harness2.cpp only) replayed on the EXACT owner machine TreiberExact.stepx
+    harness2 = ctx.cxx('harness2.cpp', 'harness2', flags, sanitize=False)
+    if harness2 is None:
+        ctx.stage('build-harness2', False, getattr(ctx, 'last_cxx_error', ''))
+    else:
+        cases2 = gen_scripts2(ctx, scale * (4 if broken else 1))
+        p2 = os.path.join(ctx.build, 'oracle2.cases'); open(p2, 'w').write('\n'.join(cases2) + '\n')
+        rc4, l4, e4 = ctx.run_lines([harness2], p2, timeout=300)
+        ctx.evaluations += len(cases2)
+        if rc4 != 0 or len(l4) != len(cases2):
+            bad.append((cases2[min(len(l4), len(cases2) - 1)], e4[-400:], 'barrier harness crashed / hung (exit %d) on this schedule' % rc4))
+        for c, out in zip(cases2, l4):
+            why, nt = oracle_seq2(c, out)
+            if why: bad.append((c, out[:1500], why))
+            elif nt: ctx.nontrivial.add(c)
+        if have_model and rc4 == 0 and len(l4) == len(cases2):
+            tr2 = ['seq2 ' + ' '.join(t.split('|')[0] for t in l.split() if not t.startswith('end|')) for l in l4]
+            tp2 = os.path.join(ctx.build, 'trace2.cases'); open(tp2, 'w').write('\n'.join(tr2) + '\n')
+            rc5, m5, e5 = ctx.run_lines([ctx.model_exe], tp2)
+            mism2 = []
+            for c, il, ml in zip(cases2, l4, m5 + ['<missing>'] * (len(l4) - len(m5))):
+                mt = ml.split()
+                if ' '.join(il.split()[:-1]) != ' '.join(mt[:-1]) or not re.match(r'end\|disp=(\d+)\|recl=\1\|q=1$', mt[-1] if mt else ''):
+                    mism2.append((c, il, ml))
+            ctx.evaluations += len(cases2); ctx.traces_validated += len(cases2) - len(mism2)
+            ok2 = rc5 == 0 and not mism2
+            ctx.stage('corr:trace-replay-2thread', ok2, ('model driver exit %d %s\n' % (rc5, e5[-300:]) if rc5 else '') +
+                      ('first disagreement: case %r\nimpl : %s\nmodel: %s (%d total)' % (mism2[0][0], mism2[0][1][:700], mism2[0][2][:700], len(mism2)) if mism2 else ''))
+            ctx.tie_obligations.append({'name': 'exact machine (stepx) replays %d deterministic multi-thread traces of the real code (parked disposers, genuine and '
+                                                'spurious CAS failures, pushes between check and allocate and inside a drain): same CAS outcomes, same check '
+                                                'answers, same free list and outstanding buffers after every event' % len(cases2), 'ok': ok2})
+            mism2.sort(key=lambda m: len(m[0]))
+            for (c, il, ml) in mism2[:1]:
+                if not bad:
+                    ctx.violation('exact machine and implementation disagree on a deterministic multi-thread schedule', {'case': c, 'impl': il[:1500], 'model': ml[:1500],
+                                  'cmd': 'echo "%s" | build/C19/harness2' % c}, found_input=True)
+        bad.sort(key=lambda b: len(b[0]))
+
     # ---- multi-threaded stress: TSan always, ASan + plain in the thorough tier / when searching
     sbad = []
     sc = gen_stress(ctx, scale * (3 if broken else 1))
@@ -308,6 +439,8 @@ def run(ctx):
 
 RULE = ('cases = 17 hand-written corner schedules (empty/1/many-entry free list at a drain, LIFO/FIFO disposal, drain inside Clear, reuse right after '
         'reclaim, moved-from rows, rewritten rows) + random single-thread schedules in five modes (mixed, create-then-destroy, ping-pong, table-heavy, '
-        'long free lists) + multi-threaded stress runs (1..16 disposer threads) under ThreadSanitizer (and ASan/UBSan in the thorough tier); '
+        'long free lists) + 8 corner and 150*scale random DETERMINISTIC multi-thread schedules (barrier harness: disposers parked between load and CAS, '
+        'pushes injected between check and allocate and inside a drain, spurious failures) + multi-threaded stress runs (1..16 disposer threads) under ThreadSanitizer (and ASan/UBSan in the thorough tier); '
         'distinct = distinct case line; non-trivial = schedule in which one drain reclaimed >= 2 buffers AND a reclaimed buffer was handed out again, '
+        'or a deterministic multi-thread schedule with a failed CAS or a missed check AND an exchange while a destructor was in flight, '
         'or a stress run with >= 2 disposers in which the owner drained a non-empty list while disposers were running')
